@@ -1,5 +1,5 @@
 """property id -> check function(prop, tier) -> exit code, plus the metadata bin/mkmanifest writes into MANIFEST.json"""
-import frame
+import frame, keytree
 
 FRAME_NOTE = ("Trusted: TLC 1.8; go-ethereum v1.12.0's StateDB as world state; the scenario compiler (harness/scn) that turns model "
               "instructions into byte code; join-point failures are injected at provider level (GetTxBondAspects error) except where real WASM "
@@ -44,6 +44,12 @@ META = {
                       "with values 0/1/2, self-calls, calls to new accounts and precompiles, CREATE/CREATE2, reverting frames and two top-level calls "
                       "is executed and StateChanges().Balance(addr) per call index must equal the model's collapsed before/after sequences."),
                 note=FRAME_NOTE),
+    "C11": dict(fn=keytree.check, engine="keytree", design_ref="3.3, 6 C11", replay=".build/verifh keytree -one {path}",
+                technique="TLC exhaustive model checking of KeyTree.tla + replay of every TLC-generated API history on a real vm.Tracer",
+                text=("LookupAgree/ChangeVisibleBoth/ChildIndicesExact/RefuseIdempotent are model-checked on the implementation-shaped key tree with a ghost "
+                      "registration record; every history of <= 3 (thorough: 4, sampled 10) API operations over 1-2 accounts, 2 slots, offsets {0,1,32}, "
+                      "2 type ids, 2 names, 2 values is replayed on the real tracer and every query is compared after the last operation of every prefix."),
+                note="Trusted: TLC; histories are restricted to well-formed registrations (no two names for one (slot, offset, type), no two layouts for one name). Exhaustive only within the stated constants."),
 }
 
 CHECKS = {p: m["fn"] for p, m in META.items()}
